@@ -24,20 +24,23 @@ ASSUME = ['TLC results are exhaustive only within the stated constants (<= 4 nod
           'a weak reference to an object without oid makes the commit store that object (deviation named in '
           'persistent_id; constant WeakAdds)',
           'after a pack "another connection" is one that has not cached the packed-away objects (a pack sends no invalidations)',
+          'the loading connection B is the only other connection of database "1", so the pool hands the same connection '
+          'back (checked: machinery failure otherwise)',
           'transaction, persistent, zodbpickle trusted as installed']
 
 INVARIANTS = ['TypeOK', 'ExtractExact', 'NoDanglingStrong', 'NoDanglingWeak', 'RoundTrip', 'PackKeepsReachable']
 PROPERTIES = ['StoredIffReachableOrAdded', 'CommitTouchesOnlyClosure', 'OnlyCommitAndPackStore']
-ACTIONS = ('AddEdge', 'RemoveEdge', 'ExplicitAdd', 'Commit', 'LoadElsewhere', 'Pack')
+ACTIONS = ('AddEdge', 'RemoveEdge', 'ExplicitAdd', 'Commit', 'LoadElsewhere', 'Pack',
+           'MinimizeAllB', 'MinimizeSomeB', 'AbortB', 'CloseB', 'ResetCaches')
 FORMATS = ('oc', 'o', 'w', 'wd', 'm', 'n')
 
 
 def consts(NNode=3, FNodes=(100,), Holders=('direct', 'list'), KindSets='KS_Rot0', MaxEdges=2, MaxOps=5,
-           WeakAdds=True, NCand=1, CandSize=1):
+           WeakAdds=True, NCand=1, CandSize=1, Lifecycle=False):
     return {'NNode': NNode, 'FNodes': '{' + ', '.join(str(f) for f in FNodes) + '}',
             'Holders': '{' + ', '.join('"%s"' % h for h in Holders) + '}', 'KindSets': '<- ' + KindSets,
             'MaxEdges': MaxEdges, 'MaxOps': MaxOps, 'WeakAdds': 'TRUE' if WeakAdds else 'FALSE',
-            'NCand': NCand, 'CandSize': CandSize}
+            'NCand': NCand, 'CandSize': CandSize, 'Lifecycle': 'TRUE' if Lifecycle else 'FALSE'}
 
 
 def _cfg(ctx, name, c, **kw):
@@ -229,6 +232,10 @@ def run(ctx):
     for name, c in mc:
         cfg = _cfg(ctx, name, c, invariants=INVARIANTS, properties=PROPERTIES, view='View')
         ctx.model_check('MCZGraph', cfg, name=name, timeout=1500)
+    # the loading connection through its life-cycle (close / re-open from the pool, resetCaches, deactivation, abort)
+    lc = consts(NNode=2, FNodes=(), Holders=('direct',), KindSets='KS_Rot0', MaxEdges=1, MaxOps=5 if q else 7, Lifecycle=True)
+    ctx.model_check('MCZGraph', _cfg(ctx, 'lifecycle-2n', lc, invariants=['TypeOK', 'BOK', 'RoundTrip'],
+                                     properties=['SameUnlessReset'], view='View'), name='lifecycle-2n', timeout=900)
     witness = deviation_witness(ctx)
     # 2. all small graphs
     ncases = {}
@@ -245,11 +252,12 @@ def run(ctx):
         ncases[name] = graphs(ctx, tally, name, c, fn, both=not q and name == 'graphs-rot1')
     # 3. mutation programs of a larger configuration
     big = consts(NNode=4, FNodes=(100, 101), Holders=('direct', 'list', 'dict', 'deep'), KindSets='KS_RootPlain',
-                 MaxEdges=6, MaxOps=12, NCand=40, CandSize=6)
-    nprog = programs(ctx, tally, 'programs-4n', big, (100, 101), num=1500 if q else 12000, depth=16)
+                 MaxEdges=6, MaxOps=14, NCand=40, CandSize=6, Lifecycle=True)
+    nprog = programs(ctx, tally, 'programs-4n', big, (100, 101), num=1500 if q else 12000, depth=18)
     # vacuity
     missing = [a for a in ACTIONS if not tally.actions.get(a)] + [f for f in FORMATS if not tally.formats.get(f)]
-    for k in ('imports', 'exports', 'packs', 'loads', 'refs_checked'):
+    for k in ('imports', 'exports', 'packs', 'loads', 'refs_checked', 'loads_after_reset', 'loads_reusing_objects',
+              'handle_checks', 'probes'):
         if not tally.counts.get(k):
             missing.append(k)
     if not tally.weak_added:
@@ -263,13 +271,18 @@ def run(ctx):
         'rule': 'one evaluation = one behaviour replayed on real connections (multi-database of two, MappingStorage / '
                 'FileStorage alternating, six oid byte patterns rotating): either one of ALL graphs TLC enumerates for a '
                 'configuration (every edge set up to MaxEdges over {strong, weak} x container shapes x local/foreign '
-                'targets, every set of add()ed nodes; build, commit, load elsewhere, pack, load elsewhere) or one TLC '
-                '-simulate mutation program (AddEdge / RemoveEdge / ExplicitAdd / Commit / LoadElsewhere / Pack, <= 12 '
-                'operations, 4 nodes, every class-kind assignment).  After EVERY action: oids / add()ed / changed flags of '
+                'targets, every set of add()ed nodes; build, commit, then the loading connection through its life-cycle - '
+                'load, cacheMinimize, close, re-open from the pool and load, resetCaches, close, re-open and load, pack, '
+                'load) or one TLC -simulate mutation program (AddEdge / RemoveEdge / ExplicitAdd / Commit / LoadElsewhere / '
+                'Pack / MinimizeAllB / MinimizeSomeB / AbortB / CloseB / ResetCaches, <= 16 operations, 4 nodes, every '
+                'class-kind assignment).  After EVERY action: oids / add()ed / changed flags of '
                 'connection A, every raw record decoded without ZODB.serialize (class description, references by kind and '
                 'container shape, no embedded instance), referencesf and get_refs per record with the classes '
                 'un-importable; at LoadElsewhere: every node in another connection (class or placeholder, constructor '
-                'arguments, state, target identity per oid, weak targets alive or gone), export set of every node, '
+                'arguments, state, weak targets alive or gone; ONE object per oid: the object reached through every '
+                'reference, get(oid) and root() is the same, and the same as the one handed out earlier in the same cache '
+                'generation (TLC says when a reset generation intervened); a change made through a referrer\'s handle is '
+                'visible through get(oid) and gone from both after the abort), export set of every node, '
                 'isomorphism of every importable copy.  distinct = distinct behaviour; non-trivial = the behaviour stored '
                 'at least one new object or reference',
         'traces_validated_against_impl': tally.n,
